@@ -538,12 +538,12 @@ def run(ctx):
         kinds.append(k)
 
     gen_scrub(ctx, add)
-    ctx.correspond(exe, lines, kinds, label="scrub", prop=prop, key_of=key_of)
+    ctx.correspond(exe, lines, kinds, label="scrub", prop=prop, key_of=key_of, crosscheck=12)
     inclusion_counterword(ctx, exe)
     # writes: output must not depend on the splitting
     lines, kinds, groups = [], [], {}
     gen_write(ctx, add, groups)
-    model, impl = ctx.correspond(exe, lines, kinds, label="write", prop=prop, key_of=key_of, crosscheck=20)
+    model, impl = ctx.correspond(exe, lines, kinds, label="write", prop=prop, key_of=key_of, crosscheck=6)
     res = dict(zip(lines, impl))
     for gid, cases in groups.items():
         outs = {res[c] for c in cases}
@@ -556,8 +556,15 @@ def run(ctx):
     gen_conc(ctx, add)
     race = ctx.tier == "thorough"
     cexe = vlib.go_build("./zz_verif/safelog", race=True) if race else exe
-    ctx.correspond(cexe, lines, kinds, label="concurrent-writers", prop=prop, key_of=key_of, crosscheck=5)
+    ctx.correspond(cexe, lines, kinds, label="concurrent-writers", prop=prop, key_of=key_of, crosscheck=3)
     ctx.extra["exact_expectations"] = len(EXACT)
+    # one violation of every distinct key first (the replay file keeps the first 20)
+    seen, first, rest = set(), [], []
+    for v in ctx.violations:
+        (rest if v["key"] in seen else first).append(v)
+        seen.add(v["key"])
+    ctx.violations[:] = first + rest
+    ctx.extra["violation_keys"] = sorted(seen)
 
 
 def replay(ctx, doc):
